@@ -9,6 +9,7 @@ import (
 	"fmt"
 	"net/http"
 	"net/http/httptest"
+	"os"
 	"sort"
 	"strconv"
 	"strings"
@@ -30,13 +31,13 @@ import (
 
 type c01Inst struct {
 	id, svc, node, addr string
-	port               int
-	tag                string
+	port                int
+	tag                 string
 }
 
 var c01Insts = []c01Inst{
 	{"web-1", "web", "n1", "10.0.0.1", 8001, "urlprefix-/web"},
-	{"web-2", "web", "n2", "10.0.0.2", 8002, "urlprefix-/web"},
+	{"web-1", "web", "n2", "10.0.0.2", 8002, "urlprefix-/web"}, // same service id on another node: ids are only unique per agent
 	{"api-1", "api", "n1", "10.0.0.1", 9001, "urlprefix-api.example/"},
 }
 
@@ -61,7 +62,8 @@ func (m c01Model) adv(i int) (string, int) {
 	return in.tag, in.port
 }
 
-var c01KVs = []string{"", "route del web", "route add man /man http://10.0.0.9:1/", "route weight web /web weight 0.3", "route foo"}
+var c01KVs = []string{"", "route del web", "route add man /man http://10.0.0.9:1/", "route weight web /web weight 0.3", "route foo",
+	"route add man /man http://10.0.0.9:1/ opts \"register=fabio-alias\"", "route add man2 /man2 http://10.0.0.9:2/ opts \"register=other-alias\""}
 
 func (m c01Model) key() string { return fmt.Sprintf("%+v", m) }
 
@@ -138,13 +140,13 @@ func (m c01Model) healthy(i int, strict bool, accepted []string) bool {
 
 // fake Consul
 type c01Consul struct {
-	mu      sync.Mutex
-	cond    *sync.Cond
-	index   uint64
-	m       c01Model
-	parked  map[string]uint64 // endpoint -> index it waits on
-	srv     *httptest.Server
-	closed  bool
+	mu     sync.Mutex
+	cond   *sync.Cond
+	index  uint64
+	m      c01Model
+	parked map[string]uint64 // endpoint -> index it waits on
+	srv    *httptest.Server
+	closed bool
 }
 
 func newC01Consul(m c01Model) *c01Consul {
@@ -203,6 +205,11 @@ func (c *c01Consul) serve(w http.ResponseWriter, r *http.Request) {
 			return
 		}
 		w.WriteHeader(404)
+	case p == "/v1/agent/services":
+		c.meta(w)
+		w.Write([]byte("{}"))
+	case strings.HasPrefix(p, "/v1/agent/service/register"), strings.HasPrefix(p, "/v1/agent/service/deregister/"), strings.HasPrefix(p, "/v1/agent/check/"):
+		c.meta(w)
 	default:
 		c.meta(w)
 		w.WriteHeader(404)
@@ -264,7 +271,7 @@ func c01Events() []c01Event {
 	var evs []c01Event
 	for i := range c01Insts {
 		i := i
-		evs = append(evs, c01Event{"toggle-registration:" + c01Insts[i].id, func(m c01Model) c01Model {
+		evs = append(evs, c01Event{"toggle-registration:" + c01Insts[i].id + "@" + c01Insts[i].node, func(m c01Model) c01Model {
 			m.Reg[i] = !m.Reg[i]
 			if m.Reg[i] {
 				m.Check[i] = "passing"
@@ -273,7 +280,7 @@ func c01Events() []c01Event {
 		}})
 		for _, st := range []string{"passing", "warning", "critical"} {
 			st := st
-			evs = append(evs, c01Event{"check:" + c01Insts[i].id + "=" + st, func(m c01Model) c01Model { m.Check[i] = st; return m }})
+			evs = append(evs, c01Event{"check:" + c01Insts[i].id + "@" + c01Insts[i].node + "=" + st, func(m c01Model) c01Model { m.Check[i] = st; return m }})
 		}
 	}
 	for _, st := range []string{"", "passing", "critical"} {
@@ -347,10 +354,15 @@ func TestVerifC01Pipeline(t *testing.T) {
 		accepted []string
 	}{{"one/passing", false, []string{"passing"}}, {"all/passing", true, []string{"passing"}}, {"one/passing+warning", false, []string{"passing", "warning"}}, {"all/passing+warning", true, []string{"passing", "warning"}}}
 	L := ev.Begin("C01", "c01-pipeline", "model_checking",
-		"explicit-state BFS over registry histories through the real pipeline consul.NewBackend -> ServiceMonitor.Watch / watchKV -> main.watchBackend -> route.SetTable against an in-process fake Consul HTTP API (agent/self, health/state/any and kv with blocking queries on the index, catalog/service): 3 instances of 2 services on 2 nodes; events: (de)register, check flips to passing/warning/critical, a second check for strict mode, agent down/up per node, node and service maintenance, re-registration of an instance with another prefix and port, KV override in {none, route del, route add, route weight, syntax error}; per checksRequired mode and accepted-status list. After every event the harness waits for causal quiescence (both watchers parked on blocking queries at the current index, then one state-preserving index bump). invariant: active table == instances healthy under the stated rule + KV commands on top; with an invalid KV text the last good table stays. non-trivial = transition that changes the set of healthy instances or the KV text")
+		"explicit-state BFS over registry histories through the real pipeline consul.NewBackend -> ServiceMonitor.Watch / watchKV -> main.watchBackend -> route.SetTable against an in-process fake Consul HTTP API (agent/self, health/state/any and kv with blocking queries on the index, catalog/service): 3 instances of 2 services on 2 nodes; events: (de)register, check flips to passing/warning/critical, a second check for strict mode, agent down/up per node, node and service maintenance, re-registration of an instance with another prefix and port, KV override in {none, route del, route add, route weight, syntax error, two routes with a register= alias}; per checksRequired mode and accepted-status list. After every event the harness waits for causal quiescence (both watchers parked on blocking queries at the current index, then one state-preserving index bump). invariant: active table == instances healthy under the stated rule + KV commands on top; with an invalid KV text the last good table stays. non-trivial = transition that changes the set of healthy instances or the KV text")
 	maxDepth := 3
 	if ev.Thorough() {
 		maxDepth = 4
+	}
+	if os.Getenv("VERIF_FREE") == "1" {
+		// the same pipeline built with -race: one level is enough to run every
+		// event through the watchers and the concurrent per-service lookups
+		maxDepth = 1
 	}
 	deadline := ev.Deadline(420, 3000)
 	events := c01Events()
@@ -481,7 +493,7 @@ type c01Pipe struct {
 func newC01Pipe(strict bool, accepted []string, init c01Model) *c01Pipe {
 	fc := newC01Consul(init)
 	cc := &config.Consul{Addr: strings.TrimPrefix(fc.srv.URL, "http://"), Scheme: "http", KVPath: "/fabio/config", NoRouteHTMLPath: "/fabio/noroute.html", TagPrefix: "urlprefix-",
-		ServiceStatus: accepted, ChecksRequired: "one", ServiceMonitors: 1}
+		ServiceStatus: accepted, ChecksRequired: "one", ServiceMonitors: 3, ServiceAddr: "127.0.0.1:9998", ServiceName: "fabio"}
 	if strict {
 		cc.ChecksRequired = "all"
 	}
